@@ -96,17 +96,24 @@ pub enum Policy {
     Replay(Vec<u32>),
 }
 
+thread_local! {
+    /// (kind, n) of every pick of the last finished run on this thread (debugging aid)
+    pub static LAST_META: RefCell<Vec<(u32, u32)>> = const { RefCell::new(Vec::new()) };
+}
+
 pub struct Sched {
     pub policy: Policy,
     pub rng: Rng,
     pub choices: Vec<u32>,
+    /// (kind, n) per pick: debugging aid, not part of a replay
+    pub meta: Vec<(u32, u32)>,
     pub cap: usize,
     pub overflow: bool,
 }
 
 impl Sched {
     pub fn new(policy: Policy, seed: u64) -> Self {
-        Self { policy, rng: Rng::new(seed), choices: Vec::new(), cap: 200_000, overflow: false }
+        Self { policy, rng: Rng::new(seed), choices: Vec::new(), meta: Vec::new(), cap: 200_000, overflow: false }
     }
     fn choose(&mut self, kind: u32, n: u32) -> u32 {
         let i = self.choices.len();
@@ -149,6 +156,7 @@ impl Sched {
             Policy::Replay(list) => list.get(i).copied().unwrap_or(0).min(n - 1),
         };
         self.choices.push(c);
+        self.meta.push((kind, n));
         c
     }
 }
@@ -247,6 +255,32 @@ where
     F: FnOnce() -> Fut,
     Fut: Future<Output = ()> + Send + 'static,
 {
+    run_sim_with(policy, sched_seed, opts, move || async move {
+        let h = tokio::spawn(root());
+        match h.await {
+            Ok(()) => None,
+            Err(e) => Some(format!("root task failed: {e}")),
+        }
+    })
+}
+
+/// Same, with `root` as the runtime's main (block_on) future: for roots that are not `Send`.
+pub fn run_sim_main<F, Fut>(policy: Policy, sched_seed: u64, opts: SimOpts, root: F) -> RunOut
+where
+    F: FnOnce() -> Fut,
+    Fut: Future<Output = ()> + 'static,
+{
+    run_sim_with(policy, sched_seed, opts, move || async move {
+        root().await;
+        None
+    })
+}
+
+fn run_sim_with<F, Fut>(policy: Policy, sched_seed: u64, opts: SimOpts, root: F) -> RunOut
+where
+    F: FnOnce() -> Fut,
+    Fut: Future<Output = Option<String>>,
+{
     tokio::runtime::sim::clear_stalls();
     SCHED.with(|s| *s.borrow_mut() = Some(Sched::new(policy, sched_seed)));
     tokio::runtime::sim::set_policy(Some(Box::new(|kind, n| {
@@ -273,11 +307,7 @@ where
                     lib: Default::default(),
                 })
             });
-            let h = tokio::spawn(root());
-            match h.await {
-                Ok(()) => None,
-                Err(e) => Some(format!("root task failed: {e}")),
-            }
+            root().await
         });
         let end_ms = now_ms_rt(&rt);
         with_run(|r| {
@@ -291,6 +321,7 @@ where
     tokio::runtime::sim::set_policy(None);
     tokio::runtime::sim::clear_stalls();
     let sched = SCHED.with(|s| s.borrow_mut().take()).expect("sched");
+    LAST_META.with(|m| *m.borrow_mut() = sched.meta.clone());
     let run = RUN.with(|r| r.borrow_mut().take());
     let (aborted, end_ms) = match res {
         Ok((a, e)) => (a, e),
